@@ -36,7 +36,8 @@ pub fn replay(args: &Args) {
     let mut rep = Report::new(args.get("prop").unwrap_or("C12"), args.req("out"));
     let only: Vec<String> = args.get("only").map(|s| s.split(',').map(|x| x.to_string()).collect()).unwrap_or_default();
     let want = |k: &str| only.is_empty() || any_of(only.iter(), |x| x == k);
-    for v in &cases {
+    for v in cases {
+        let v = &v;
         if get_str(v, "op") != "order" {
             continue;
         }
